@@ -124,7 +124,7 @@ def split_calls(rng, g):
 
 def run(ctx):
     rng = ctx.rng
-    nprog = ctx.scale(500, 5000)
+    nprog = ctx.scale(500, 1500)
     jobs, meta = [], {}
     dist = {"programs": 0, "cut_free_programs": 0, "mode_runs": {}, "dropped_impl": 0, "dropped_model": 0, "prefix_only_ambiguous_arith_error": 0}
     n = 0
